@@ -48,7 +48,9 @@ def field_of(region):
 
 
 def kind_class(kind):
-    return "flip" if kind.startswith("flip") else "trunc" if kind.startswith("trunc") else kind
+    """fault classes of the model: the content of the region is overwritten (zero / ff / junk / one flipped bit / +1), the file or
+    sample ends early, or it is longer than it should be"""
+    return "trunc" if kind.startswith("trunc") else "extend" if kind.startswith("extend") else "none" if kind == "none" else "overwrite"
 
 
 def target_of(f):
